@@ -26,7 +26,7 @@ TRUSTED = ["Model/Tbl.lean is hand-written (on top of Model/CDS.lean and Model/L
            "harness/shims.py (marshmallow post_dump) to import the gene / io packages",
            "Python's `random` (reproducibility for a fixed seed is checked by exporting twice, not proved)"]
 ASSUMPTIONS = ["block lists are ascending, non-empty blocks, non-overlapping (0-bp gaps included); a CDS is its "
-               "transcript's exons clipped to a coding range",
+               "transcript's exons clipped to a coding range, optionally cut further into adjacent blocks inside an exon",
                "chromosome letters are ACGT in either case (the writer's predicates upper-case them)",
                "sequence names, locus-tag prefixes, qualifier keys and values contain no tab / line break (the writer "
                "does no escaping); sequence names contain no space (SeqIds do not)",
